@@ -160,6 +160,19 @@ claim("C02",
       "table lint against a reference algebra + interprocedural effect summary (call-graph fixpoint) + switch tag-set check",
       "DESIGN.md section 3, C02")
 
+claim("C17",
+      "Read discipline: every read from a library or archive file is checked against the requested count (R1), the header "
+      "validator's verdict is consumed (R2), the section buffer is exactly as large as what was read and every tag that was "
+      "read from a file buffer is range-reduced or range-tested before it indexes a global table (R3). These make "
+      "'truncation at any byte is refused with a diagnostic' hold for the header and section layer (replayed over every "
+      "truncation length after the repair); corruption inside a complete section cannot be detected by a format without "
+      "checksums and is not decided.",
+      "Trusted: clang 14 AST; the three frozen foreign-archive-format exceptions; liveness of file.c helpers by reference "
+      "closure.",
+      "unchecked-result (error discipline) rule over resolved call sites + intra-procedural taint from file buffers to "
+      "table indexes with sanitiser recognition",
+      "DESIGN.md section 3, C17")
+
 PENDING_REASON = "check designed in DESIGN.md but not yet built in this tree; not claimed until it runs"
 
 
